@@ -21,7 +21,7 @@ RULE = ("three streams. (r3) _apply_rule_of_three called directly: rates k/n' wi
         "degenerate rectangles, occasional NaN limits; (band) the four band functions on Scores with both classes non-empty "
         "(ties, easy samples incl. 5 hard + 8 easy positives, 4 configurations), every combination of supplied arrays / "
         "nb_points / x_axis, alpha in {.05,.1,.25,.5}, the three bootstrap methods, identity sampler (closed form, compared "
-        "exactly / 1e-12) and built-in samplers replacement / dynamic / proportion with and without by_label stratification "
+        "exactly / 1e-12) and built-in samplers replacement / single_pass / dynamic / proportion with and without by_label stratification "
         "under np.random.seed (well-formedness); fixed_width_band_ci only with nb_points / all scores. Model vs implementation: "
         "r3/agg exactly; band under the identity sampler and under recorded by_label samples with the quantile method on "
         "inputs whose float operations are exact. A band case is non-trivial when the curve has >= 3 distinct operating "
@@ -31,7 +31,7 @@ TRUSTED = C15.TRUSTED + [
     "np.where on (N,1) x (1,2) x (N,2) = row-wise choice; np.min/np.max(initial=) propagate NaN; Python min/max on floats; "
     "boolean-mask indexing = filter; joint_ci[0]/[1] = first / last n rows of the (2,n,2) array",
     "the built-in samplers are a parameter of the model (C11); recorded samples are replayed as a callable sampler (C14)",
-    "explicit single_pass sampling is left to C11 (its open finding would surface here as an exception inside the metric)",
+    "explicit single_pass sampling is included since /repo c42c88e (single-pass samples keep a scored sample per class)",
 ]
 ASSUMPTIONS = ["fixed_width_band_ci raising 'Could not initialise search for displacement' is counted as a failure only when the "
                "curve at the chosen supports runs from (0,1) to (1,0) (the documented precondition of the tube search); with all "
@@ -129,7 +129,7 @@ def gen_band(rng, k, func=None, sampler=None, exact=None, easy_scene=None):
         elif r < 0.45:
             sampler = {"type": "identity"}
         else:
-            sm = rng.choice(["replacement", "replacement", "dynamic", "proportion"])
+            sm = rng.choice(["replacement", "replacement", "dynamic", "proportion", "single_pass"])
             sampler = {"type": "builtin", "sampling_method": sm, "stratified": None if sm == "proportion" else rng.choice([None, "by_label"]),
                        "ratio": 0.5 if sm == "proportion" else None, "seed": rng.randint(0, 10 ** 6)}
     case["sampler"] = sampler
